@@ -80,6 +80,7 @@ func init() {
 		ruleCopyAlias(c, r)
 		ruleOptsForward(c, r, c.anchored("C05"), 10)
 		ruleIfaceIdentity(c, r)
+		ruleMergeUnset(c, r)
 	})
 }
 
